@@ -102,6 +102,8 @@ def predicates(e, m):
         "p3-toctou": z3.Or([z3.And(run_after(j), S[f"missed{j}"]) for j in range(J)]),
         "p3-early": z3.Or([z3.And(run_after(j), S[f"early{j}"], z3.Not(S[f"missed{j}"])) for j in range(J)]),
         "p3-other": z3.Or([z3.And(run_after(j), z3.Not(S[f"early{j}"]), z3.Not(S[f"missed{j}"])) for j in range(J)]),
+        # shutdown(wait=True) has returned, nothing can move, and the solver process of an accepted job is still running
+        "p3-wait": z3.Or([z3.And(S["sdretw"], qn, S[f"acc{j}"], S[f"proc{j}"] == P_RUN) for j in range(J)]),
     }
     P["safety"] = z3.Or(P["twice"], P["timeout-lost"], P["late-accepted"])
     return P
@@ -109,7 +111,7 @@ def predicates(e, m):
 
 QUERY_CLASS = {"residual": "residual", "deadlock": "result-returns", "safety": "exactly-once/timeout-surfaces/no-late-submit",
                "p3-toctou": "no-running-after-shutdown", "p3-early": "no-running-after-shutdown",
-               "p3-other": "no-running-after-shutdown"}
+               "p3-other": "no-running-after-shutdown", "p3-wait": "no-running-after-shutdown"}
 
 
 def has_nowait(sc: Scenario):
@@ -129,8 +131,8 @@ def reproduced(qname, m, wit, rep):
     J = m.J
     if qname.startswith("p3-"):
         js = [j for j in range(J) if pr.get(f"proc{j}") == P_RUN]
-        ok = bool(pr.get("sdret")) and bool(js)
-        return ok, (f"shutdown(wait=False) has returned, every thread is blocked or finished, simulated solver "
+        ok = bool(pr.get("sdretw" if qname == "p3-wait" else "sdret")) and bool(js)
+        return ok, (f"shutdown(wait={qname == 'p3-wait'}) has returned, every thread is blocked or finished, simulated solver "
                     f"process of job {js} is still running (accepted={[pr.get(f'acc{j}') for j in js]}); threads "
                     f"still alive: {rep.get('probe_alive')}")
     if qname == "deadlock":
@@ -156,6 +158,8 @@ def key_of(qname, m, wit):
         return KEY_EARLY
     if qname == "p3-other":
         return f"running-after-shutdown/other/{m.sc.name}"
+    if qname == "p3-wait":
+        return f"running-after-shutdown/wait/{m.sc.name}"
     if qname == "deadlock":
         return f"result-blocks/{m.sc.name}"
     f = wit["final"]
@@ -477,10 +481,14 @@ def main(run):
                                                  "j3-earlyexit")
         tasks.append(("tv", (sc.to_json(), min(N, 20), TV_VARIANTS if full_tv else TV_VARIANTS[:2], tmo)))
     big_first = sorted(scs, key=lambda x: -x[0].J * 100 - x[1])
-    for qs in (["residual"], ["p3-toctou", "p3-early"]):
+    for qs in (["residual"], ["p3-toctou", "p3-early", "p3-wait"]):
         for sc, N in big_first:
             for q in qs:
-                if q.startswith("p3-") and not has_nowait(sc):
+                if q == "p3-wait":
+                    if not any(op[0] == "shutdown" and op[1] for _, ops in list(sc.clients) + [(None, o) for o in sc.callbacks.values()]
+                               for op in ops):
+                        continue
+                elif q.startswith("p3-") and not has_nowait(sc):
                     continue
                 tasks.append(("query", (sc.to_json(), N, q, tmo)))
 
